@@ -27,7 +27,9 @@ FORMS = ["cartesian", "spherical", "cylindrical", "keplerian", "keplerian_eccent
 FORM_SHORT = {"circular": "keplerian_circular", "mean": "keplerian_mean", "mean_circular": "keplerian_mean_circular",
               "eccentric": "keplerian_eccentric"}
 SCALES = ["UTC", "TAI", "TT", "GPS", "TDB", "UT1"]
-PROPS = [None, "Kepler", "J2"]
+# a name = the string the Orbit constructor accepts; "X()" = an instance; KeplerNum:<step s>:<method>:<tol> = an instance
+PROPS = [None, "Kepler", "J2", "Sgp4", "Sgp4Beta", "NonePropagator", "Kepler()", "Sgp4Beta()",
+         "KeplerNum:60:rk4:0.001", "KeplerNum:30:dopri54:1e-05", "KeplerNum:10:euler:0.001", "KeplerNum:120:rkf54:0.01"]
 META_KEYS = ["name", "cospar_id", "mass", "tags", "cfg", "note", "k1"]
 BAD_FORMS = ["foo", "keplerian_", "cartesien", "kepler", "TLE2", "mean circular"]
 BAD_FRAMES = ["XYZ", "EME2001", "itrf", "J2000", "QSW"]
@@ -35,7 +37,7 @@ BAD_FRAMES = ["XYZ", "EME2001", "itrf", "J2000", "QSW"]
 MUTATORS = ["set_form", "set_frame", "set_coord", "set_meta", "mutate_meta", "append_man", "remove_man",
             "set_mans", "replace_cov_entry", "attach_cov", "del_cov", "set_cov_frame"]
 MAKERS = ["copy", "copy_form", "copy_frame", "copy_both", "copy_same", "pickle", "as_orbit", "as_statevector",
-          "cov_copy", "clone"]
+          "cov_copy", "clone", "late_frame"]
 COV_FRAMES = FRAMES + ["QSW", "TNW", "QSW", "TNW"]
 FAILING = ["bad_form", "bad_frame", "hill", "wrong_param"]
 
@@ -59,12 +61,19 @@ def _man(d):
 
 
 def _cov(d):
-    """PSD = L L^T; frame None (= state frame) / QSW / TNW"""
+    """PSD = L L^T; frame None (= state frame) / QSW / TNW; `as` = how the 36 numbers are handed over:
+    float64 array (the caller changes it afterwards), nested lists, nested tuples, python ints / an int64 array
+    (integer-valued matrix, e.g. numpy.diag([100, 100, 100, 1, 1, 1]))"""
+    how = d.pick("ndarray", "ndarray", "list", "tuple", "ints", "int64")
     L = []
     for i in range(6):
-        mag = 10.0 if i < 3 else 1e-2
-        L.append([(d.u(0.05, 1.0) if i == j else (d.u(-0.5, 0.5) if d.coin() else 0.0)) * mag for j in range(i + 1)])
-    return dict(L=L, frame=d.pick(None, None, "QSW", "TNW"))
+        if how in ("ints", "int64"):
+            L.append([float(d.int(1, 9) if i == j else d.int(-3, 3)) for j in range(i + 1)])
+        else:
+            mag = 10.0 if i < 3 else 1e-2
+            L.append([(d.u(0.05, 1.0) if i == j else (d.u(-0.5, 0.5) if d.coin() else 0.0)) * mag
+                      for j in range(i + 1)])
+    return {"L": L, "frame": d.pick(None, None, "QSW", "TNW"), "as": how}
 
 
 def _object(d):
@@ -86,6 +95,10 @@ def _object(d):
         meta={d.pick(*META_KEYS): _meta_value(d) for _ in range(d.pick(0, 1, 2, 3))},
         # reading .maneuvers / .cov creates the key with an empty default, which a copy must not share either
         touch=d.coin(),
+        # how the six numbers reach the constructor (float64 array / view: the caller changes it afterwards)
+        coords_as=d.pick("list", "tuple", "ndarray", "ndarray", "view"),
+        # a lone maneuver: in a list, as the object itself through the setter, or as constructor keyword
+        man_as=d.pick("list", "setter", "ctor"),
     )
     return spec
 
@@ -94,6 +107,7 @@ def _op(d, kind):
     op = dict(op=kind, i=d.int(0, 5))
     if kind in ("copy_form", "set_form", "copy_both"):
         op["form"] = d.pick(*(FORMS + list(FORM_SHORT)))
+        op["case"] = d.pick("lower", "lower", "lower", "upper", "title")  # form names are case-insensitive
         op["as_object"] = d.int(0, 3) == 0  # pass the Form / Frame object instead of its name
     if kind in ("copy_frame", "set_frame", "copy_both"):
         op["frame"] = d.pick(*ALL_FRAMES)
@@ -102,7 +116,8 @@ def _op(d, kind):
         op["j"] = d.int(0, 5)
     if kind == "set_coord":
         op.update(k=d.int(0, 5), how=d.pick("index", "attr", "item", "alias_attr", "alias_item"),
-                  factor=1.0 + d.pick(-1, 1) * d.u(1e-6, 1e-3), alias=d.int(0, 1))
+                  factor=1.0 + d.pick(-1, 1) * d.u(1e-6, 1e-3), alias=d.int(0, 1),
+                  vtype=d.pick("float", "float", "numpy.float64", "numpy.float32", "int"))
     if kind == "set_meta":
         op.update(key=d.pick(*META_KEYS), value=_meta_value(d), how=d.pick("attr", "item"))
     if kind == "mutate_meta":
@@ -113,6 +128,7 @@ def _op(d, kind):
         op["k"] = d.int(0, 3)
     if kind == "set_mans":
         op["mans"] = [_man(d) for _ in range(d.int(0, 2))]
+        op["single"] = d.coin()  # a lone maneuver handed over as the object itself
     if kind == "replace_cov_entry":
         op.update(a=d.int(0, 5), b=d.int(0, 5), factor=1.0 + d.u(1e-3, 0.5))
     if kind == "attach_cov":
@@ -124,7 +140,7 @@ def _op(d, kind):
     if kind == "clone":
         op["how"] = d.pick("copy", "deepcopy", "pickle")
     if kind == "as_orbit":
-        op["prop"] = d.pick("Kepler", "J2", "Kepler()", "J2()")
+        op["prop"] = d.pick(*PROPS[1:])
     if kind == "bad_form":
         op.update(name=d.pick(*BAD_FORMS), via=d.pick("set", "copy"))
     if kind == "bad_frame":
